@@ -849,6 +849,50 @@ def rule_deleg(rep, S):
 
 
 # ---------------------------------------------------------------------------------------------------------------------
+ALIAS_DRIVER = ('#include "xtl/xbasic_fixed_string.hpp"\n'
+                'namespace wxtl { template <class C> std::size_t use() { xtl::xbasic_fixed_string<C, 16> s; s.push_back(C(65)); s.pop_back(); s.resize(3, C(66)); auto t = s; t.append(s); return t.size() + s.size(); }\n'
+                'std::size_t all() { return use<wchar_t>() + use<char16_t>() + use<char32_t>() + use<char>(); } }\n')
+
+
+def rule_alias(rep):
+    """the character buffer of a wide fixed string is an array of wchar_t / char16_t / char32_t: reading or writing an element through a pointer to
+    another type (other than a char type) is outside the aliasing rule and lets the optimiser reorder it against the ordinary accesses"""
+    rep.rule("C01.alias", "in the storage classes instantiated for wchar_t, char16_t, char32_t (and char) no element of the character buffer is accessed through a "
+                          "pointer obtained by reinterpreting the buffer as a different non-character type (strict aliasing: the packed length lives in the last element)")
+    R = "C01.alias"
+    d = cj.dump(ALIAS_DRIVER, "xtl::")
+    rep.cmd(d.cmd)
+    n = 0
+    for cls in d.walk():
+        if cls.get("kind") != "ClassTemplateSpecializationDecl" or "storage_impl" not in (cls.get("name") or ""):
+            continue
+        targ = " ".join(ir.template_args(cls))
+        elem = targ.split("[")[0].replace("*", "").strip()
+        if elem not in ("wchar_t", "char16_t", "char32_t", "char"):
+            continue
+        n += 1
+        bad = None
+        for f in ir.kids(cls):
+            if f.get("kind") not in ("CXXMethodDecl", "CXXConstructorDecl") or not ir.has_body(f):
+                continue
+            for x in ir.walk_expr(f):
+                if x.get("kind") in ("CXXReinterpretCastExpr", "CStyleCastExpr") and x.get("castKind") == "BitCast":
+                    to = ir.qtype(x).replace("const ", "").replace("*", "").strip()
+                    to_d = ((x.get("type") or {}).get("desugaredQualType") or ir.qtype(x)).replace("const ", "").replace("*", "").strip()
+                    src = ir.qtype(ir.ekids(x)[0]).replace("const ", "").replace("*", "").strip() if ir.ekids(x) else ""
+                    if "*" in ir.qtype(x) and to_d not in ("char", "unsigned char", "std::byte", "void", elem) and elem in src:
+                        bad = (x, f, to_d)
+        label = "%s<%s>" % (cls.get("name"), targ)
+        if bad:
+            rep.violates(R, label, "buffer accessed through its own element type", where=d.where(bad[0]),
+                         detail="`%s` in %s reinterprets the %s buffer as %s: that access may be reordered against the ordinary element accesses (e.g. the "
+                                "stores of a copied string), so size() can return a stale length with optimisation" % (d.text(bad[0])[:60], bad[1].get("name"), elem, bad[2]))
+        else:
+            rep.holds(R, label, "buffer accessed through its own element type", where=d.where(cls))
+    if n < 4:
+        rep.broke("C01.alias: storage classes for the wide character types were not instantiated (%d found)" % n)
+
+
 def run(tier):
     rep = Report("C01", tier, "other",
                  "Structural necessary conditions only (equivalence with std::basic_string over all histories is a statement about run-time contents and is NOT "
@@ -899,4 +943,5 @@ def run(tier):
     rule_defarg(rep, d)
     rule_selflen(rep, d, strs["P16"])
     rule_order(rep, d, strs["P16"])
+    rule_alias(rep)
     return rep
